@@ -175,7 +175,7 @@ class FixedExtensionHeader (ExtensionHeader):
     """
     Unpacks a new instance of this class from a buffer
     """
-    if max_length is not None and (max_length - offset) < cls.LENGTH:
+    if max_length is not None and max_length < cls.LENGTH:
       raise TruncatedException()
 
     nh = struct.unpack_from("!B", raw, offset)[0]
@@ -345,8 +345,8 @@ class ipv6 (packet_base):
       return
 
     length = self.payload_length
-    if length > len(raw):
-      length = len(raw) # Clamp to what we've got
+    if length > len(raw) - offset:
+      length = len(raw) - offset # Clamp to what we've got
       self.msg('(ipv6) warning IP packet data incomplete (%s of %s)'
                % (len(raw), self.payload_length))
 
@@ -357,8 +357,9 @@ class ipv6 (packet_base):
           self.msg('(ipv6) warning, packet data incomplete')
           return
         try:
-          offset,o = c.unpack_new(raw, offset, max_length = length)
-          length -= len(o)
+          new_offset,o = c.unpack_new(raw, offset, max_length = length)
+          length -= new_offset - offset
+          offset = new_offset
         except TruncatedException:
           self.msg('(ipv6) warning, packet data truncated')
           return
